@@ -203,6 +203,7 @@ type callArgs struct {
 	ifacePtr  map[int]Term
 	ifaceElem map[int]types.Type
 	ifaceOpaque bool // an interface argument of unknown origin (may hold a pointer)
+	ifaceSlice  map[int]TV
 }
 
 type copyBack struct {
@@ -232,6 +233,12 @@ func (fr *Frame) doCall(in ssa.Instruction, com *ssa.CallCommon, st *State, isGo
 				if pt, ok := mi.X.Type().Underlying().(*types.Pointer); ok {
 					ca.ifacePtr[ai] = fr.term(mi.X, st)
 					ca.ifaceElem[ai] = pt.Elem()
+				} else if _, ok := mi.X.Type().Underlying().(*types.Slice); ok {
+					// a slice inside an interface (sort.Slice(x, less)): its elements may change
+					if ca.ifaceSlice == nil {
+						ca.ifaceSlice = map[int]TV{}
+					}
+					ca.ifaceSlice[ai] = TV{T: fr.term(mi.X, st), Ty: mi.X.Type()}
 				}
 			} else if _, isConst := a.(*ssa.Const); !isConst {
 				ca.ifaceOpaque = true
@@ -490,6 +497,11 @@ func (fr *Frame) contractCall(con *Contract, key string, sig *types.Signature, c
 				// an interface argument may carry a pointer we cannot see: fall back to havoc
 				c.havocAll(st)
 			}
+			for i, sv := range ca.ifaceSlice {
+				if allowed(i) {
+					fr.havocObject(sv, st)
+				}
+			}
 			for i, p := range ca.ifacePtr {
 				if !allowed(i) {
 					continue
@@ -595,6 +607,12 @@ func (fr *Frame) contractCall(con *Contract, key string, sig *types.Signature, c
 				continue // talks about the callee's locals: not visible to callers
 			}
 			c.stale = append(c.stale, fmt.Sprintf("%s:%d: %v", cl.File, cl.Line, err))
+			continue
+		}
+		if t.S == "false" {
+			// a postcondition that is literally false at a call site would make everything after the
+			// call vacuously true: refuse it (functions that never return are declared `noreturn`)
+			c.stale = append(c.stale, fmt.Sprintf("%s:%d: postcondition of %s evaluates to false at a call site (use noreturn if intended)", cl.File, cl.Line, shortKey(key)))
 			continue
 		}
 		c.assumeG(t)
@@ -1258,6 +1276,9 @@ func mentionsEvents(e CExpr, ho map[string]*Event) bool {
 	case *CIdx:
 		return mentionsEvents(x.X, ho) || mentionsEvents(x.I, ho)
 	case *CCall:
+		if id, ok := x.Fun.(*CIdent); ok && id.Name == "didCallWith" {
+			return true
+		}
 		if mentionsEvents(x.Fun, ho) {
 			return true
 		}
